@@ -216,15 +216,26 @@ pub fn seed_from_env() -> u64 {
 // ---------------------------------------------------------------------------------------
 // worker side
 
+/// panics of the code under test are caught and judged by the engines; the first few
+/// messages still go to the worker's stderr log so that an uncaught one can be diagnosed
+fn quiet_panic_hook() {
+    static SHOWN: std::sync::atomic::AtomicUsize = std::sync::atomic::AtomicUsize::new(0);
+    std::panic::set_hook(Box::new(|info| {
+        if SHOWN.fetch_add(1, std::sync::atomic::Ordering::Relaxed) < 40 {
+            eprintln!("[panic] {info}");
+        }
+    }));
+}
+
 pub fn worker_main(engine: &Engine, tier: Tier, shard: u64, nshards: u64, out: &Path) {
-    std::panic::set_hook(Box::new(|_| {}));
+    quiet_panic_hook();
     let mut ctx = Ctx::new(engine.prop, tier, seed_from_env(), shard, nshards);
     (engine.run)(&mut ctx);
     write_worker_result(&ctx, out);
 }
 
 pub fn replay_worker_main(engine: &Engine, file: &Path, out: &Path) {
-    std::panic::set_hook(Box::new(|_| {}));
+    quiet_panic_hook();
     let mut ctx = Ctx::new(engine.prop, Tier::Quick, seed_from_env(), 0, 1);
     ctx.replaying = true;
     let mut s = String::new();
@@ -400,6 +411,12 @@ pub fn parent_main(engine: &Engine, tier: Tier) -> i32 {
     for (shard, o) in outcomes.iter().enumerate() {
         if !o.ok {
             eprintln!("[{}] worker {} failed: {}", engine.prop, shard, o.status);
+            let log = tmp_dir().join(format!("worker-worker-{}-{}-{}-{}.stderr", engine.prop, tier.name(), shard, nshards));
+            if let Ok(t) = std::fs::read_to_string(&log) {
+                for l in t.lines().rev().take(6).collect::<Vec<_>>().into_iter().rev() {
+                    eprintln!("    | {l}");
+                }
+            }
             // a worker died: locate the case, confirm it reproduces in isolation
             match find_crash_case(&exe, engine, tier, shard as u64, nshards) {
                 Some((case, status)) => {
